@@ -4,7 +4,7 @@ package main
 //                                  QUIC.reuseConnection, translated mechanically from the Go AST.
 // c41-lines <overlay/reuse.go>  : print the same two functions as exhaustive tables (one row per input) for
 //                                  the harness: `snap <cached> <cdir> <dir> => <state>,<dir>` and
-//                                  `leaf <ps> <pd> <cached> <cdir> <dir> <rc> => <act>`.
+//                                  `leaf <ps> <pd> <cached> <cdir> <dir> <rc> <rcdir> => <act>`.
 //
 // Supported shape (anything else aborts with a non-zero exit, which ./check reports as a broken obligation):
 //   snapshot: the `if cached {…} else {…}` that follows `cache, cached := t.cachedConnections.Load(qKey)`;
@@ -15,6 +15,10 @@ package main
 //             `cache, cached = t.cachedConnections.Load(qKey)` (re-load), `fresh.quic.CloseWithError(…)`,
 //             `cache.quic.CloseWithError(…)`, `t.cachedConnections.Store(qKey, fresh|cache)`,
 //             `t.cachedConnections.Delete(qKey)`, `return <cache|fresh|nil>, <bool>, <nil|wrapReuseError(…)|other>`.
+//   After the re-load `cached` means rc (does the re-load find an entry) and `cache.direction` means rcdir (the
+//   direction of the entry found by the re-load). `cache` is a nil pointer when the re-load finds nothing, so
+//   rcdir may only be read where rc = true is established: on the right of `cached && …` or inside the
+//   then-branch of an `if` whose condition implies `cached`; anything else aborts.
 
 import (
 	"fmt"
@@ -29,7 +33,8 @@ type c41Env struct {
 	ps, pd           string // peer status: cached|fresh, incoming|outgoing
 	cached           bool
 	cdir, dir        string
-	rc               bool // result of the re-load
+	rc               bool   // result of the re-load
+	rcdir            string // direction of the entry found by the re-load (meaningful only when rc)
 	reloaded         bool
 	closeF, closeC   bool
 	store            string // "", fresh, cache
@@ -68,11 +73,30 @@ type c41Ctx struct {
 	fset *token.FileSet
 }
 
-// condition → (lean text, evaluator). `reloaded` selects which `cached` variable is meant.
-func (c *c41Ctx) cond(e ast.Expr, reloaded bool) (string, func(*c41Env) bool) {
+// does the condition being true imply that the identifier `cached` is true?
+func c41ImpliesCached(e ast.Expr) bool {
 	switch x := e.(type) {
 	case *ast.ParenExpr:
-		return c.cond(x.X, reloaded)
+		return c41ImpliesCached(x.X)
+	case *ast.Ident:
+		return x.Name == "cached"
+	case *ast.BinaryExpr:
+		if x.Op == token.LAND {
+			return c41ImpliesCached(x.X) || c41ImpliesCached(x.Y)
+		}
+		if x.Op == token.LOR {
+			return c41ImpliesCached(x.X) && c41ImpliesCached(x.Y)
+		}
+	}
+	return false
+}
+
+// condition → (lean text, evaluator). `reloaded` selects which `cached` / `cache` variables are meant (the
+// snapshot's or the re-load's); `rcKnown` = the re-loaded `cached` is known to be true where e is evaluated.
+func (c *c41Ctx) cond(e ast.Expr, reloaded, rcKnown bool) (string, func(*c41Env) bool) {
+	switch x := e.(type) {
+	case *ast.ParenExpr:
+		return c.cond(x.X, reloaded, rcKnown)
 	case *ast.Ident:
 		if x.Name == "cached" {
 			if reloaded {
@@ -82,7 +106,7 @@ func (c *c41Ctx) cond(e ast.Expr, reloaded bool) (string, func(*c41Env) bool) {
 		}
 	case *ast.UnaryExpr:
 		if x.Op == token.NOT {
-			t, f := c.cond(x.X, reloaded)
+			t, f := c.cond(x.X, reloaded, rcKnown)
 			return "¬ (" + t + ")", func(e *c41Env) bool { return !f(e) }
 		}
 	case *ast.BinaryExpr:
@@ -96,9 +120,13 @@ func (c *c41Ctx) cond(e ast.Expr, reloaded bool) (string, func(*c41Env) bool) {
 			switch l {
 			case "cache.direction":
 				if reloaded {
-					c41Fail(c.fset, e, "cache.direction after the re-load (the model has no direction for the re-loaded entry)")
+					if !rcKnown {
+						c41Fail(c.fset, e, "cache.direction after the re-load where `cached` is not known to be true (nil entry)")
+					}
+					v, get = "rcdir", func(e *c41Env) string { return e.rcdir }
+				} else {
+					v, get = "cdir", func(e *c41Env) string { return e.cdir }
 				}
-				v, get = "cdir", func(e *c41Env) string { return e.cdir }
 			case "dir":
 				v, get = "dir", func(e *c41Env) string { return e.dir }
 			default:
@@ -119,8 +147,9 @@ func (c *c41Ctx) cond(e ast.Expr, reloaded bool) (string, func(*c41Env) bool) {
 			return "¬ (" + v + " = Dir." + want + ")", func(e *c41Env) bool { return get(e) != want }
 		}
 		if x.Op == token.LAND || x.Op == token.LOR {
-			lt, lf := c.cond(x.X, reloaded)
-			rt, rf := c.cond(x.Y, reloaded)
+			lt, lf := c.cond(x.X, reloaded, rcKnown)
+			// Go evaluates the right operand of && only when the left one is true
+			rt, rf := c.cond(x.Y, reloaded, rcKnown || (x.Op == token.LAND && reloaded && c41ImpliesCached(x.X)))
 			if x.Op == token.LAND {
 				return "(" + lt + ") ∧ (" + rt + ")", func(e *c41Env) bool { return lf(e) && rf(e) }
 			}
@@ -133,6 +162,7 @@ func (c *c41Ctx) cond(e ast.Expr, reloaded bool) (string, func(*c41Env) bool) {
 
 type c41Acc struct {
 	reloaded, closeF, closeC, del bool
+	rcKnown                       bool // after the re-load: `cached` is known to be true on this path
 	store                         string
 	snapState, snapDir            string
 }
@@ -169,6 +199,7 @@ func (c *c41Ctx) dec(stmts []ast.Stmt, acc c41Acc) *c41Node {
 			if len(x.Lhs) == 2 && c41Sel(x.Lhs[0]) == "cache" && c41Sel(x.Lhs[1]) == "cached" && len(x.Rhs) == 1 {
 				if call, ok := x.Rhs[0].(*ast.CallExpr); ok && c41Sel(call.Fun) == "t.cachedConnections.Load" {
 					acc.reloaded = true
+					acc.rcKnown = false
 					continue
 				}
 			}
@@ -201,8 +232,12 @@ func (c *c41Ctx) dec(stmts []ast.Stmt, acc c41Acc) *c41Node {
 			if x.Init != nil {
 				c41Fail(c.fset, s, "if with init")
 			}
-			txt, fn := c.cond(x.Cond, acc.reloaded)
-			thenN := c.dec(append(append([]ast.Stmt{}, x.Body.List...), rest...), acc)
+			txt, fn := c.cond(x.Cond, acc.reloaded, acc.rcKnown)
+			thenAcc := acc
+			if acc.reloaded && c41ImpliesCached(x.Cond) {
+				thenAcc.rcKnown = true
+			}
+			thenN := c.dec(append(append([]ast.Stmt{}, x.Body.List...), rest...), thenAcc)
 			var elseStmts []ast.Stmt
 			switch e := x.Else.(type) {
 			case nil:
@@ -329,7 +364,7 @@ func (c *c41Ctx) snap(stmts []ast.Stmt, acc c41Acc) *c41Node {
 			}
 			c41Fail(c.fset, s, "snapshot assignment")
 		case *ast.IfStmt:
-			txt, fn := c.cond(x.Cond, false)
+			txt, fn := c.cond(x.Cond, false, false)
 			thenN := c.snap(append(append([]ast.Stmt{}, x.Body.List...), rest...), acc)
 			var elseStmts []ast.Stmt
 			switch e := x.Else.(type) {
@@ -501,9 +536,11 @@ def snapshot (cached : Bool) (cdir dir : Dir) : CState × Dir :=
 `)
 		fmt.Println(snapN.lean("  "))
 		fmt.Print(`
+set_option linter.unusedVariables false in
 /-- the decision taken under Lock: ps/pd = status received from the peer, cached/cdir = the snapshot,
-dir = this connection, rc = whether the re-load finds an entry -/
-def decide (ps : CState) (pd : Dir) (cached : Bool) (cdir dir : Dir) (rc : Bool) : Act :=
+dir = this connection, rc = whether the re-load finds an entry, rcdir = the direction of the entry found by
+the re-load (meaningful only when rc = true) -/
+def decide (ps : CState) (pd : Dir) (cached : Bool) (cdir dir : Dir) (rc : Bool) (rcdir : Dir) : Act :=
 `)
 		fmt.Println(decN.lean("  "))
 		fmt.Print("\nend Gen.C41\n")
@@ -526,8 +563,10 @@ def decide (ps : CState) (pd : Dir) (cached : Bool) (cdir dir : Dir) (rc : Bool)
 					for _, cdir := range ds {
 						for _, dir := range ds {
 							for _, rc := range bs {
-								e := &c41Env{ps: ps, pd: pd, cached: cached, cdir: cdir, dir: dir, rc: rc}
-								fmt.Printf("leaf %s %s %s %s %s %s => %s\n", ps, pd, c41B(cached), cdir, dir, c41B(rc), decN.eval(e))
+								for _, rcdir := range ds {
+									e := &c41Env{ps: ps, pd: pd, cached: cached, cdir: cdir, dir: dir, rc: rc, rcdir: rcdir}
+									fmt.Printf("leaf %s %s %s %s %s %s %s => %s\n", ps, pd, c41B(cached), cdir, dir, c41B(rc), rcdir, decN.eval(e))
+								}
 							}
 						}
 					}
